@@ -43,7 +43,7 @@ def run(ctx):
     d = vlib.scratch_dir()
     try:
         rec = os.path.join(d, "records.ndjson")
-        args = ["--n", "2600", "--reps", "1"] if ctx.quick else ["--n", "0", "--reps", "6"]
+        args = ["--n", "2600", "--reps", "1"] if ctx.quick else ["--n", "0", "--reps", "20"]
         p = vlib.sh([binp, "c17", "--out", rec, "--seed", str(ctx.seed)] + args, timeout=1200)
         summ = ff.summary(p)
         rows, bad, _ = ff.judge(ctx, "C17", rec, d)
@@ -62,7 +62,7 @@ def run(ctx):
                rule="one evaluation = one real Decode call of FlateDecode or LZWDecode with DecodeParms on seeded random predictor-encoded rows, "
                     "recomputed and judged by TLC; the grid Predictor{1,2,10..15} x Colors 1..4 x BPC{1,2,4,8,16} x Columns 1..8 x rows 1..3 x "
                     "{Flate,LZW} is %s; distinct non-trivial = distinct (parameters, raw rows) with a predictor >= 2 that the real decoder decoded"
-                    % ("sampled (seeded shuffle)" if ctx.quick else "covered completely, 6 random row fillings each"),
+                    % ("sampled (seeded shuffle)" if ctx.quick else "covered completely, 20 random row fillings each"),
                exhaustive=False, records_rejected_by_spec=len(bad), invalid_row_filter_cases=summ["invalidFilterType"],
                outside_table8_cases=summ["outsideTable8"], decoder_errors=summ["errors"], per_filter_predictor=dict(byp))
         for r in rows[:2] + [r for r, _ in bad[:1]]:
